@@ -21,8 +21,9 @@ print(' '.join(seen) if seen else m['property'])")
     out=$(lib/seedrun.sh "$c" "$d/patch.diff" 2>&1)
     if echo "$out" | grep -q "^exit=1"; then res="caught by $c: $(echo "$out" | grep '^  ' | head -1 | cut -c1-120)"; break; fi
     if echo "$out" | grep -q "^exit=2"; then res="TOOL-ERROR in $c"; fi
+    if echo "$out" | grep -q "working tree is dirty"; then res="SKIPPED (/repo working tree is dirty)"; fi
   done
   echo "$name: $res"
-  case "$res" in MISSED*|TOOL*) miss=1;; esac
+  case "$res" in MISSED*|TOOL*|SKIPPED*) miss=1;; esac
 done
 exit $miss
